@@ -3,6 +3,9 @@ import QR.Proofs.Interleave
 import QR.Proofs.RSDiv
 import QR.Proofs.Distance
 import QR.Proofs.Pinned
+import QR.Proofs.SourceTieA3
+import QR.Proofs.SourceTieA4
+import QR.Proofs.SourceTieA5b
 /-
 C02 - every error-correction block is a codeword of the ISO Reed-Solomon code; block structure = ISO Table 9.
 -/
@@ -100,6 +103,156 @@ theorem C02_unique_decoding (v : Nat) (hv : v < 40) (l : Spec.Level) (b : Nat ×
     (h1 : Spec.isCodeword (Spec.eccLen (v + 1) l) c1 = true) (h2 : Spec.isCodeword (Spec.eccLen (v + 1) l) c2 = true)
     (hd1 : QR.Proofs.hdist r c1 ≤ Spec.eccLen (v + 1) l / 2) (hd2 : QR.Proofs.hdist r c2 ≤ Spec.eccLen (v + 1) l / 2) : c1 = c2 :=
   QR.Proofs.C02_unique_decoding v hv l b hbl r c1 c2 hr hc1 hc2 hb1 hb2 h1 h2 hd1 hd2
+
+
+/-! ### Source tie, part 2 (T2 plugins `tools/t2_fragments/`): the hand-written Model equals the definitions translated from
+    /repo's current Python AST (`QR.Gen.Code`, regenerated on every run). Restated verbatim from `QR/Proofs/SourceTie*.lean`. -/
+section SourceTieT2
+open QR.Model QR.Gen.Code QR.SourceTieA
+
+/-- **gexp**: `return EXP_TABLE[n % 255]` for every Python int `n`; the index is never negative -/
+theorem C02_source_gexp_src (n : Int) :
+    gexp_table = "EXP_TABLE" ∧ gexp n = idx Gen.EXP_TABLE (gexp_index n).toNat ∧ 0 ≤ gexp_index n :=
+  QR.SourceTieA.gexp_src n
+
+/-- **glog**: `if n < 1: raise ValueError` / `return LOG_TABLE[n]` -/
+theorem C02_source_glog_src (n : Nat) :
+    glog_exception = "ValueError" ∧ glog_table = "LOG_TABLE" ∧
+    glog n = if glog_raises n then .error .valueError else idx Gen.LOG_TABLE (glog_index n).toNat :=
+  QR.SourceTieA.glog_src n
+
+/-- for a negative Python int the translated guard raises as well (the Model's argument type is `Nat`) -/
+theorem C02_source_glog_raises_neg (n : Int) (h : n < 0) : glog_raises n = true :=
+  QR.SourceTieA.glog_raises_neg n h
+
+/-- the row loop: `Model.rsRow` equals the loop assembled from the translated range `(0, len(rs_block), 3)`, slice
+    `rs_block[i : i + 3]`, unpacking order and `RSBlock(total_count, data_count)` argument order -/
+theorem C02_source_rsRow_src (row : List Nat) : rsRow row.length row = rsLoop row :=
+  QR.SourceTieA.rsRow_src row
+
+theorem C02_source_rs_blocks_literals : rs_blocks_guard = ("error_correction not in RS_BLOCK_OFFSET", "Exception") ∧
+    rs_blocks_offset_lookup = "RS_BLOCK_OFFSET[error_correction]" ∧ rs_blocks_table = "RS_BLOCK_TABLE" ∧
+    rs_blocks_block_fields = ["total_count", "data_count"] :=
+  QR.SourceTieA.rs_blocks_literals
+
+/-- **rs_blocks**: for every level and every `version ≥ 1` (`check_version` guarantees it; for `version = 0` Python's
+    negative index would wrap around) the Model is: dictionary lookup, row `RS_BLOCK_TABLE[(version - 1) * 4 + offset]`
+    with the translated (Int) index expression, then the translated row loop. -/
+theorem C02_source_rsBlocks_src (version level : Nat) (hv : 1 ≤ version) :
+    rsBlocks version level =
+      match Gen.RS_BLOCK_OFFSET.lookup level with
+      | none => .error .other
+      | some offset => idx Gen.RS_BLOCK_TABLE (rs_blocks_row_index version offset).toNat >>= rsLoop :=
+  QR.SourceTieA.rsBlocks_src version level hv
+
+/-- **Polynomial.__init__**: `Model.polyMk num shift` is: the translated emptiness guard (`if not num: raise Exception`),
+    then `num[offset:] + [0] * shift` where `offset` is the value left by the translated scan loop
+    `offset = 0; for offset in range(len(num)): if num[offset] != 0: break`. -/
+theorem C02_source_polyMk_src (num : List Nat) (shift : Nat) :
+    poly_init_exception = "Exception" ∧
+    polyMk num shift =
+      if poly_init_raises num.length then .error .other
+      else
+        let rng := poly_init_range num.length
+        let offset := forBreak (fun o => poly_init_break (num.getD o 0)) (List.range' rng.1 (rng.2 - rng.1)) poly_init_offset0
+        .ok (num.drop (poly_init_drop offset) ++ List.replicate (poly_init_pad shift).2 (poly_init_pad shift).1) :=
+  QR.SourceTieA.polyMk_src num shift
+
+/-- **Polynomial.__mul__**: allocation `[0] * (len(self) + len(other) - 1)` (a negative count gives the empty list, hence
+    `Int.toNat`), the double `enumerate` loop with the translated index `i + j`, exponent `glog(item) + glog(other_item)`,
+    update `^=`, and `Polynomial(num, 0)`. -/
+theorem C02_source_polyMul_src (self other : List Nat) :
+    poly_mul_glog_args = ["self", "other"] ∧
+    polyMul self other =
+      ((List.range self.length).foldlM (fun num i =>
+          (List.range other.length).foldlM (fun num j =>
+            glog (self.getD i 0) >>= fun l0 =>
+            glog (other.getD j 0) >>= fun l1 =>
+            gexp (poly_mul_exponent l0 l1) >>= fun e =>
+            pure (num.set (poly_mul_index i j) (poly_mul_update (num.getD (poly_mul_index i j) 0) e))) num)
+        (List.replicate (poly_mul_alloc_len self.length other.length).toNat poly_mul_alloc_elem)
+        >>= fun num => polyMk num poly_mul_result_shift) :=
+  QR.SourceTieA.polyMul_src self other
+
+/-- **Polynomial.__mod__** (one unfolding of the recursion, `fuel` bounding Python's recursion depth):
+    `difference = len(self) - len(other)`; `if difference < 0 or self[0] == 0: return self` (short-circuit: the second
+    disjunct reads `self[0]`); `ratio = glog(self[0]) - glog(other[0])`; the zip comprehension; `if difference:
+    num.extend(self[-difference:])`; `return Polynomial(num, 0) % other`. -/
+theorem C02_source_polyMod_src (fuel : Nat) (self other : List Nat) :
+    polyMod (fuel + 1) self other =
+      let difference := poly_mod_difference self.length other.length
+      if poly_mod_done_0 difference then .ok self
+      else
+        idx self 0 >>= fun s0 =>
+        if poly_mod_done_1 difference s0 then .ok self
+        else
+          glog s0 >>= fun ls0 =>
+          idx other 0 >>= fun o0 =>
+          glog o0 >>= fun lo0 =>
+          modComp (poly_mod_ratio ls0 lo0) self other >>= fun num =>
+          polyMk (if poly_mod_tail_test difference then num ++ pySliceFrom self (poly_mod_tail_lower difference) else num)
+              poly_mod_rec_shift >>= fun p =>
+          polyMod fuel p other :=
+  QR.SourceTieA.polyMod_src fuel self other
+
+/-- the first disjunct of the early return does not read `self[0]`, so the short-circuit `or` cannot raise there -/
+theorem C02_source_poly_mod_done_0_iff (ls lo : Nat) : poly_mod_done_0 (poly_mod_difference ls lo) = decide (ls < lo) :=
+  QR.SourceTieA.poly_mod_done_0_iff ls lo
+
+theorem C02_source_cb_literals :
+    cb_lut = ("ecCount in LUT.rsPoly_LUT", "base.Polynomial(LUT.rsPoly_LUT[ecCount], 0)") ∧
+    cb_fallback = ("base.Polynomial([1], 0)", "rsPoly * base.Polynomial([1, base.gexp(i)], 0)") ∧
+    cb_ec_then = "modPoly[modIndex]" :=
+  QR.SourceTieA.cb_literals
+
+/-- the fallback loop `for i in range(ecCount): rsPoly = rsPoly * Polynomial([1, gexp(i)], 0)` over the translated range -/
+theorem C02_source_rsPolyFallback_src (ecCount : Nat) :
+    rsPolyFallback ecCount =
+      (rangeI (cb_fallback_range ecCount)).foldlM (fun p (i : Nat) =>
+        gexp (Int.ofNat i) >>= fun e => polyMk [1, e] 0 >>= fun q => polyMul p q) [1] :=
+  QR.SourceTieA.rsPolyFallback_src ecCount
+
+/-- **current_ec**: `rawPoly = Polynomial(current_dc, len(rsPoly) - 1)` (a negative count pads nothing, hence `toNat`),
+    `modPoly = rawPoly % rsPoly`, `mod_offset = len(modPoly) - ecCount`, and for `i in range(ecCount)`:
+    `modIndex = i + mod_offset`, `modPoly[modIndex] if modIndex >= 0 else 0`. -/
+theorem C02_source_ecOfBlock_src (dc : List Nat) (ecCount : Nat) :
+    ecOfBlock dc ecCount =
+      rsPolyFor ecCount >>= fun rsPoly =>
+      polyMk dc (cb_raw_shift rsPoly.length).toNat >>= fun rawPoly =>
+      polyMod (rawPoly.length + 1) rawPoly rsPoly >>= fun modPoly =>
+      pure ((rangeI (cb_ec_range ecCount)).map fun i =>
+        if cb_ec_guard (cb_mod_index i (cb_mod_offset modPoly.length ecCount))
+        then modPoly.getD (cb_mod_index i (cb_mod_offset modPoly.length ecCount)).toNat 0
+        else cb_ec_else) :=
+  QR.SourceTieA.ecOfBlock_src dc ecCount
+
+theorem C02_source_cb_dc_elt_src (b : Nat) : cb_dc_elt b = b % 256 :=
+  QR.SourceTieA.cb_dc_elt_src b
+
+theorem C02_source_dcRead_src (buf : List Nat) (offset dcCount : Nat) :
+    dcRead buf offset dcCount =
+      if (buf.drop offset).length < dcCount then .error .indexError
+      else .ok (((buf.drop offset).take dcCount).map (· % 256)) :=
+  QR.SourceTieA.dcRead_src buf offset dcCount
+
+/-- **main loop**: `Model.splitBlocks` on the buffer suffix starting at `offset` is the loop over `rs_blocks` with the
+    translated `dcCount = rs_block.data_count`, `ecCount = rs_block.total_count - dcCount`, the comprehension
+    `0xFF & buffer.buffer[i + offset] for i in range(dcCount)` and `offset += dcCount`. -/
+theorem C02_source_splitBlocks_src (buf : List Nat) : ∀ (blocks : List (Nat × Nat)) (offset : Nat),
+    splitBlocks (buf.drop offset) blocks = cbLoop buf offset blocks :=
+  QR.SourceTieA.splitBlocks_src buf
+
+/-- **create_bytes**: the Model is the translated main loop started at `offset = 0`, followed by the two interleaving
+    loops over `range(maxDcCount)` / `range(maxEcCount)` with the translated guards `i < len(dc)` / `i < len(ec)`,
+    where `maxDcCount`, `maxEcCount` are accumulated with the translated `max(…)` updates. -/
+theorem C02_source_createBytes_src (buf : List Nat) (blocks : List (Nat × Nat)) :
+    createBytes buf blocks =
+      cbLoop buf cb_offset0 blocks >>= fun bs =>
+      pure (ilLoop (rangeN (cb_il_dc_range (cbMaxDc blocks))) cb_il_dc_guard (bs.map (·.1)) ++
+            ilLoop (rangeI (cb_il_ec_range (cbMaxEc blocks))) cb_il_ec_guard (bs.map (·.2))) :=
+  QR.SourceTieA.createBytes_src buf blocks
+
+end SourceTieT2
 
 /-- the Python functions this property's model mirrors have, in /repo's current working tree, exactly the normalised
     ASTs the model was written and validated against (fingerprints regenerated by T1 on every run) -/
